@@ -275,7 +275,7 @@ func (d *drv) window(ttl int) (forced, hit int) {
 		reached, hold := d.clk.Arm(trk.KEntries)
 		var wg sync.WaitGroup
 		wg.Add(1)
-		go func() { defer wg.Done(); d.concCleanE(1) }()
+		go func() { defer wg.Done(); d.concCleanE(1); d.clk.Mark('r') }()
 		parked := false
 		select {
 		case <-reached:
@@ -302,7 +302,7 @@ func (d *drv) window(ttl int) (forced, hit int) {
 		}
 		close(hold)
 		wg.Wait()
-		if parked && d.clk.Pattern(trk.KEntries, trk.KUpdate) {
+		if parked && d.clk.Between(trk.KEntries, trk.KUpdate, 'r') {
 			hit++
 		}
 		d.clk.Disarm()
